@@ -277,7 +277,19 @@ func runC05(ctx *Ctx) {
 				"<p>" + g.words(40) + "</p>" +
 				`<blockquote class="twitter-tweet"><p>` + g.words(4) + `</p><script async src="//platform.twitter.com/widgets.js"></script><a href="https://twitter.com/u/status/123">d</a></blockquote>` +
 				"<p>" + g.words(40) + "</p><figure>" + g.img() + "<figcaption>" + g.words(3) + scr + ` <a href="x" class="c" onclick="y()">` + g.words(1) + "</a></figcaption></figure><p>" + g.words(30) + "</p>"
-			return []string{"<html><head><title>t</title></head><body>" + body + "</body></html>"}
+			// character data of SVG / MathML elements that carry the name of an HTML raw text
+			// element: harmless text in the source, markup if it is written out unescaped
+			foreign := func() string {
+				raw := r.Pick("xmp", "noembed", "noframes", "iframe", "noscript", "plaintext", "style", "script")
+				payload := r.Pick(`&lt;script&gt;alert(1)&lt;/script&gt;`, `&lt;img src=x onerror=alert(2)&gt;`, `&lt;p id=injected class=c style=color:red onclick=x()&gt;`+g.word()+`&lt;/p&gt;`)
+				return r.Pick("<svg>", "<math>", "<svg><g>", "<math><mrow>") + "<" + raw + ">" + payload + "</" + raw + ">" + r.Pick("</svg>", "</math>", "")
+			}
+			body2 := "<p>" + g.words(40) + "</p>" +
+				"<table><caption>" + g.words(2) + foreign() + "</caption><tr><th>" + g.words(1) + "</th><th>" + g.words(1) + "</th></tr><tr><td>" + g.words(2) + foreign() + "</td><td>" + g.words(2) + "</td></tr><tr><td>" + g.words(1) + "</td><td>" + g.words(1) + "</td></tr></table>" +
+				"<p>" + g.words(40) + "</p>" +
+				`<blockquote class="twitter-tweet"><p>` + g.words(4) + `</p>` + foreign() + `<a href="https://twitter.com/u/status/124">d</a></blockquote>` +
+				"<p>" + g.words(40) + "</p><figure>" + g.img() + "<figcaption>" + g.words(3) + foreign() + ` <a href="x">` + g.words(1) + "</a></figcaption></figure><p>" + g.words(30) + " " + foreign() + "</p><p>" + g.words(30) + "</p>"
+			return []string{"<html><head><title>t</title></head><body>" + body + "</body></html>", "<html><head><title>t</title></head><body>" + body2 + "</body></html>"}
 		},
 		oracle: func(ctx *Ctx, x *distilled, replay interface{}) bool {
 			oracleC05(ctx.Rep, x, replay)
